@@ -61,6 +61,8 @@ func checkC14(w *World, r *Report) {
 	r.rule("C14.kinds", "the equality dispatch has a dedicated case for every value struct of package types that has a Val field (Symbol, List, Vector, HashMap, Set), and none of these cases compares whole structs with ==")
 	r.rule("C14.gate", "before the dispatch the function returns false unless the dynamic types are identical or both operands are sequential; the sequential predicate accepts exactly the list and vector types")
 	equalsEntryRule(w, r, "C14.entry")
+	r.rule("C14.stateless", "Equal_Q and the functions of its package it is built from (the sequence test, the slice accessor) keep no state: they assign no package-level variable, so an answer depends on the two operands only and concurrent comparisons cannot disturb each other")
+	noGlobalWritesRule(w, r, "C14.stateless", "equality", []*ssa.Function{w.Fn("types", "Equal_Q"), w.Fn("types", "Sequential_Q"), w.Fn("types", "GetSlice")})
 	r.rule("C14.go-equality", "Go's == / != on two lisp values is used only where neither can be a comparable struct that carries a source position (a Symbol read from text compares unequal to the same symbol read elsewhere): such values must go through Equal_Q's own case")
 	goEqualityRule(w, r, e, "C14.go-equality")
 	r.rule("C14.symmetric-shape", "every collection case compares the sizes of both operands before comparing elements, and the two sequence cases recurse through the same function element by element")
@@ -497,6 +499,10 @@ func checkC13(w *World, r *Report) {
 	r.rule("C13.identity", "the builtins that hand one of their arguments back unchanged are exactly the reviewed ones (where the model's result is the argument itself); every other builtin builds its result, so that its kind and contents are decided by the builtin and not by what the caller happened to pass")
 	identityRule(w, r, "C13.identity")
 	lastWinsRule(w, r, e, "C13.last-wins")
+	r.rule("C13.stateless", "the collection builtins are functions of their arguments: neither they nor the functions of package types they use assign a package-level variable")
+	noGlobalWritesRule(w, r, "C13.stateless", "a collection builtin", append(w.registeredFuncs(), w.pkgFuncs("types")...))
+	pairLoopRule(w, r, e, "C13.pairs")
+	stringCharsRule(w, r, "C13.chars")
 	r.rule("C13.kind", "the kinds a collection builtin can return (computed as the possible dynamic types of its success results) stay within the kinds confirmed against the README / step files on the reviewed tree: concat, cons, rest, map, take, drop, keys, vals yield lists; vec, subvec, range vectors; assoc/dissoc/conj/update the kind of their argument; a builtin whose result could suddenly be 'whatever was passed' or another kind is reported")
 	kindRule(w, r, e, "C13.kind")
 	r.rule("C13.mapiter", "inside a loop ranging over a map, no other map is both read (or deleted from) and written: the result must not depend on Go's random iteration order")
@@ -539,6 +545,13 @@ func checkC13(w *World, r *Report) {
 				case callB:
 					if s, ok := constString(c.Call.Args[1]); ok {
 						sites = append(sites, regSite{s, fn, describeVal(e, c.Call.Args[2], 0) + w.pos(c.Pos()), c.Pos()})
+					} else {
+						// a registration table walked by a loop: one registration per row
+						for i, row := range tableRows(c.Call.Args[1], c.Call.Args[2]) {
+							if s, ok := constString(row[0]); ok {
+								sites = append(sites, regSite{s, fn, fmt.Sprintf("%s row %d %s", describeVal(e, row[1], 0), i, w.pos(c.Pos())), c.Pos()})
+							}
+						}
 					}
 				}
 			}
@@ -898,36 +911,94 @@ func checkC17(w *World, r *Report) {
 		r.undecided("C17.provenance", nil, "tokenize", token.NoPos, "function no longer resolves")
 	} else {
 		nt := 0
-		for _, b := range tk.Blocks {
-			for _, in := range b.Instrs {
-				st, ok := in.(*ssa.Store)
-				if !ok {
-					continue
+		// the fields a value is read from (scanner position fields, fields of the cursor parameter), followed through
+		// locals and through the parameters of unexported helpers
+		var fieldsOf func(v ssa.Value, out map[string]bool, seen map[ssa.Value]bool, depth int)
+		fieldsOf = func(v ssa.Value, out map[string]bool, seen map[ssa.Value]bool, depth int) {
+			if depth > 10 || seen[v] {
+				return
+			}
+			seen[v] = true
+			switch x := v.(type) {
+			case *ssa.Field:
+				out[fieldName(x.X.Type(), x.Field)] = true
+			case *ssa.UnOp:
+				if x.Op != token.MUL {
+					fieldsOf(x.X, out, seen, depth+1)
+					return
 				}
-				fa, ok := st.Addr.(*ssa.FieldAddr)
-				if !ok {
-					continue
+				switch ad := x.X.(type) {
+				case *ssa.FieldAddr:
+					out[fieldName(ad.X.Type(), ad.Field)] = true
+				case *ssa.Alloc:
+					for _, ref := range *ad.Referrers() {
+						if st, ok := ref.(*ssa.Store); ok && st.Addr == ssa.Value(ad) {
+							fieldsOf(st.Val, out, seen, depth+1)
+						}
+					}
 				}
-				if _, name, ok := w.namedStruct(fa.X.Type()); !ok || name != "Position" {
-					continue
+			case *ssa.BinOp:
+				fieldsOf(x.X, out, seen, depth+1)
+				fieldsOf(x.Y, out, seen, depth+1)
+			case *ssa.Convert:
+				fieldsOf(x.X, out, seen, depth+1)
+			case *ssa.Phi:
+				for _, op := range x.Edges {
+					fieldsOf(op, out, seen, depth+1)
 				}
-				dst := fieldName(fa.X.Type(), fa.Field)
-				d := describeVal(e, st.Val, 0)
-				switch {
-				case strings.HasSuffix(dst, "Row"):
-					nt++
-					_, isArith := st.Val.(*ssa.BinOp)
-					r.check(strings.HasSuffix(d, ".Line") && !isArith, "C17.provenance", tk, "token "+dst, st.Pos(), "scanner Line, no arithmetic", "row field is "+d)
-				case strings.HasSuffix(dst, "Col"):
-					nt++
-					r.check(strings.Contains(d, ".Column") && !strings.Contains(d, ".Line"), "C17.provenance", tk, "token "+dst, st.Pos(), "derived from scanner Column", "column field is "+d)
-				case dst == "Module":
-					nt++
-					r.check(strings.HasSuffix(d, "cursor.Module"), "C17.module", tk, "token Module", st.Pos(), "the module of the cursor given to Read_str", "module field is "+d)
+			case *ssa.Parameter:
+				if x.Parent() != tk {
+					for _, a := range w.callSiteArgs(x) {
+						fieldsOf(a, out, seen, depth+1)
+					}
 				}
 			}
 		}
-		r.floor("C17.provenance", "position fields set by the tokenizer", nt, 6)
+		hasArith := func(v ssa.Value) bool {
+			_, isB := v.(*ssa.BinOp)
+			return isB
+		}
+		for _, tf := range w.withPkgHelpers(tk) {
+			for _, b := range tf.Blocks {
+				for _, in := range b.Instrs {
+					st, ok := in.(*ssa.Store)
+					if !ok {
+						continue
+					}
+					fa, ok := st.Addr.(*ssa.FieldAddr)
+					if !ok {
+						continue
+					}
+					if _, name, ok := w.namedStruct(fa.X.Type()); !ok || name != "Position" {
+						continue
+					}
+					dst := fieldName(fa.X.Type(), fa.Field)
+					src := map[string]bool{}
+					fieldsOf(st.Val, src, map[ssa.Value]bool{}, 0)
+					d := describeVal(e, st.Val, 0)
+					arith := hasArith(st.Val)
+					if p, isP := st.Val.(*ssa.Parameter); isP && p.Parent() != tk {
+						for _, a := range w.callSiteArgs(p) {
+							if hasArith(a) {
+								arith = true
+							}
+						}
+					}
+					switch {
+					case strings.HasSuffix(dst, "Row"):
+						nt++
+						r.check(src["Line"] && len(src) == 1 && !arith, "C17.provenance", tf, "token "+dst, st.Pos(), "scanner Line, no arithmetic", "row field is "+d+" (read from "+strings.Join(keysOf(src), ",")+")")
+					case strings.HasSuffix(dst, "Col"):
+						nt++
+						r.check(src["Column"] && !src["Line"], "C17.provenance", tf, "token "+dst, st.Pos(), "derived from scanner Column", "column field is "+d+" (read from "+strings.Join(keysOf(src), ",")+")")
+					case dst == "Module":
+						nt++
+						r.check(src["Module"] && len(src) == 1, "C17.module", tf, "token Module", st.Pos(), "the module of the cursor given to Read_str", "module field is "+d)
+					}
+				}
+			}
+		}
+		r.floor("C17.provenance", "position fields set by the tokenizer", nt, 5)
 	}
 	// module header consulted only without a module
 	rs := w.Fn("reader", "Read_str")
@@ -1037,7 +1108,7 @@ func checkC17(w *World, r *Report) {
 					}
 					for _, r2 := range *u.Referrers() {
 						if st, ok := r2.(*ssa.Store); ok && st.Addr == ssa.Value(u) {
-							if _, fresh := st.Val.(*ssa.Alloc); !fresh && !isNilConst(st.Val) {
+							if !freshOrNil(st.Val, 0) {
 								okDeep = false
 							}
 						}
@@ -1184,6 +1255,52 @@ func checkC17(w *World, r *Report) {
 			}
 		}
 		r.floor("C17.current-form", "errors positioned inside the evaluation loop", ncf, 10)
+		// every symbol the reader returns is built for its own token
+		r.rule("C17.symbol-token", "every Symbol value read_atom returns is built on the spot with the Cursor of the token just consumed (never taken from a table of symbols built earlier): a name that occurs several times has one position per occurrence")
+		if ra := w.Fn("reader", "read_atom"); ra != nil {
+			nsy := 0
+			for _, f := range w.withPkgHelpers(ra) {
+				for _, rt := range errorReturns(f) {
+					ret := rt[0].(*ssa.Return)
+					v, _ := rt[1].(ssa.Value)
+					if v == nil {
+						continue
+					}
+					u := unboxed(v)
+					if _, name, ok := w.namedStruct(u.Type()); !ok || name != "Symbol" {
+						continue
+					}
+					nsy++
+					okS := false
+					if ld, ok := u.(*ssa.UnOp); ok && ld.Op == token.MUL {
+						if al, ok := ld.X.(*ssa.Alloc); ok && al.Comment == "complit" {
+							for _, ref := range *al.Referrers() {
+								fa, ok := ref.(*ssa.FieldAddr)
+								if !ok || fieldName(fa.X.Type(), fa.Field) != "Cursor" {
+									continue
+								}
+								for _, u2 := range *fa.Referrers() {
+									if st, ok := u2.(*ssa.Store); ok && st.Addr == ssa.Value(fa) {
+										if cfa, ok := st.Val.(*ssa.FieldAddr); ok && fieldName(cfa.X.Type(), cfa.Field) == "Cursor" && isTokenStruct(cfa.X.Type()) {
+											okS = true
+										}
+										if c, ok := st.Val.(*ssa.Call); ok && c.Call.StaticCallee() != nil && c.Call.StaticCallee().Name() == "GetPosition" {
+											okS = true
+										}
+									}
+								}
+							}
+						}
+					}
+					r.check(okS, "C17.symbol-token", f, "Symbol returned by the reader", ret.Pos(), "a literal carrying the current token's cursor", "the symbol handed back was not built for this token ("+describeVal(e, u, 0)+"): it carries the position of another occurrence of the name, so 'symbol not found' is reported at the wrong place")
+				}
+			}
+			r.floor("C17.symbol-token", "Symbol results of read_atom", nsy, 1)
+		} else {
+			r.undecided("C17.symbol-token", nil, "read_atom", token.NoPos, "function no longer resolves")
+		}
+		r.rule("C17.read-stateless", "reading keeps no state between calls: READ, READWithPreamble, Read_str and the tokenizer assign no package-level variable and store into no package-level cache (an AST embeds the module name and rows of the call that read it)")
+		noGlobalWritesRule(w, r, "C17.read-stateless", "the reader", []*ssa.Function{w.Fn("", "READ"), w.Fn("", "READWithPreamble"), w.Fn("reader", "Read_str"), w.Fn("reader", "tokenize"), w.Fn("reader", "read_form")})
 		// positions are shared (tokens, forms, errors and the caller's cursor point to them): never written in place
 		r.rule("C17.position-immutable", "a Position is only written while it is still private to the activation that allocated it (a literal, new, or the result of Copy / a constructor): nothing writes through a *Position it was handed, so the cursor a caller passes to READ and the positions already attached to forms and errors never change")
 		npi := 0
@@ -1248,7 +1365,18 @@ func checkC17(w *World, r *Report) {
 					nk++
 					// building a new value from scratch (a literal) may set its cursor; changing a copy of an existing form may not
 					al, isLit := fa.X.(*ssa.Alloc)
-					fresh := isLit && al.Comment == "complit"
+					fresh := isLit
+					if isLit && al.Comment != "complit" {
+						// a local built field by field (x := T{…}) is a literal too; a local that was assigned a whole
+						// existing value is a copy of a form
+						for _, ref := range *al.Referrers() {
+							if st2, ok := ref.(*ssa.Store); ok && st2.Addr == ssa.Value(al) {
+								if _, zero := st2.Val.(*ssa.Const); !zero {
+									fresh = false
+								}
+							}
+						}
+					}
 					r.check(fresh, "C17.forms-keep-positions", fn, "assignment to the Cursor of a "+name, st.Pos(), "only in a literal that builds a new value", "the position of an existing form is overwritten ("+describeVal(e, st.Val, 0)+"): errors raised in it are reported somewhere else than where it was read")
 				}
 			}
@@ -2093,6 +2221,60 @@ func checkC20(w *World, r *Report) {
 	}
 	aud.run()
 	r.check(w.recoverHandler(recov), "C20.panic", recov, "recover()", recov.Pos(), "called directly by the deferred function", "_recover does not call recover() itself")
+	// what the handler hands to the error constructors is the recovered value itself (asserted to error at
+	// most), never something computed from it (its message): only then does the lisp error still wrap the original
+	{
+		var isRecovered func(v ssa.Value, depth int) bool
+		isRecovered = func(v ssa.Value, depth int) bool {
+			if depth > 8 {
+				return false
+			}
+			switch x := v.(type) {
+			case *ssa.Call:
+				bi, ok := x.Call.Value.(*ssa.Builtin)
+				return ok && bi.Name() == "recover"
+			case *ssa.TypeAssert:
+				return isRecovered(x.X, depth+1)
+			case *ssa.Extract:
+				return isRecovered(x.Tuple, depth+1)
+			case *ssa.MakeInterface:
+				return isRecovered(x.X, depth+1)
+			case *ssa.ChangeInterface:
+				return isRecovered(x.X, depth+1)
+			case *ssa.ChangeType:
+				return isRecovered(x.X, depth+1)
+			case *ssa.Phi:
+				for _, op := range x.Edges {
+					if !isRecovered(op, depth+1) {
+						return false
+					}
+				}
+				return len(x.Edges) > 0
+			}
+			return false
+		}
+		nctor := 0
+		for _, b := range recov.Blocks {
+			for _, in := range b.Instrs {
+				c, ok := in.(*ssa.Call)
+				if !ok || c.Call.StaticCallee() == nil {
+					continue
+				}
+				var cause ssa.Value
+				switch c.Call.StaticCallee().Name() {
+				case "NewGoError":
+					cause = c.Call.Args[len(c.Call.Args)-1]
+				case "NewLispError":
+					cause = c.Call.Args[0]
+				default:
+					continue
+				}
+				nctor++
+				r.check(isRecovered(cause, 0), "C20.panic", recov, "value handed to "+c.Call.StaticCallee().Name(), c.Pos(), "the recovered value itself", "the error is built from something computed out of the recovered value ("+describeVal(e, cause, 0)+") instead of the value: the lisp error no longer wraps the original (errors.Is / errors.As and unwrap-error lose it)")
+			}
+		}
+		r.floor("C20.panic", "error constructions in the recover handler", nctor, 2)
+	}
 	if ge := w.Fn("lisperror", "NewGoError"); ge != nil {
 		// every outermost fmt.Errorf (one that is not itself an operand of another) formats with %w an operand
 		// that is the panic value itself (asserted to error) or an error built from it
@@ -2631,6 +2813,12 @@ func positionBlindRule(w *World, r *Report, rule string) {
 						v = x
 					}
 				}
+				// the result of GetPosition is a position too
+				if c, ok := in.(*ssa.Call); ok && c.Call.StaticCallee() != nil && c.Call.StaticCallee().Name() == "GetPosition" {
+					if _, name, ok := w.namedStruct(derefType(c.Type())); ok && name == "Position" {
+						v = c
+					}
+				}
 				if v == nil {
 					continue
 				}
@@ -2979,7 +3167,18 @@ func (w *World) registeredOverride(name string) (*ssa.Function, ssa.Instruction)
 					continue
 				}
 				k, ok := c.Call.Args[1].(*ssa.Const)
-				if !ok || k.Value == nil || k.Value.Kind() != constant.String || constant.StringVal(k.Value) != name {
+				if !ok {
+					// a registration table walked by a loop
+					for _, row := range tableRows(c.Call.Args[1], c.Call.Args[2]) {
+						if s, ok := constString(row[0]); ok && s == name {
+							if f := fnValueOf(row[1]); f != nil {
+								return f, in
+							}
+						}
+					}
+					continue
+				}
+				if k.Value == nil || k.Value.Kind() != constant.String || constant.StringVal(k.Value) != name {
 					continue
 				}
 				v := c.Call.Args[2]
@@ -3164,4 +3363,235 @@ func sliceLiteralElemsOrdered(v ssa.Value) []ssa.Value {
 		out = append(out, byIdx[i])
 	}
 	return out
+}
+
+// noGlobalWritesRule: the given functions (with the unexported functions of their package they are built from)
+// assign no package-level variable and write into no storage held by one.
+func noGlobalWritesRule(w *World, r *Report, rule, what string, roots []*ssa.Function) {
+	n, nf := 0, 0
+	seen := map[*ssa.Function]bool{}
+	for _, root := range roots {
+		if root == nil {
+			continue
+		}
+		for _, fn := range w.withPkgHelpers(root) {
+			for _, g := range append([]*ssa.Function{fn}, allAnon(fn)...) {
+				if seen[g] {
+					continue
+				}
+				seen[g] = true
+				nf++
+				for _, b := range g.Blocks {
+					for _, in := range b.Instrs {
+						switch x := in.(type) {
+						case *ssa.Store:
+							if gl, ok := x.Addr.(*ssa.Global); ok && g.Name() != "init" && !strings.HasPrefix(gl.Name(), "init$") {
+								n++
+								r.bad(rule, g, "assignment to package variable "+gl.Name(), x.Pos(), what+" keeps state in a package-level variable: concurrent evaluations share and overwrite it, and its answers depend on what was asked before")
+							}
+							if ia, ok := x.Addr.(*ssa.IndexAddr); ok {
+								if ld, ok := ia.X.(*ssa.UnOp); ok {
+									if gl, ok := ld.X.(*ssa.Global); ok {
+										n++
+										r.bad(rule, g, "write into package variable "+gl.Name(), x.Pos(), what+" writes into storage held by a package-level variable")
+									}
+								}
+							}
+						case *ssa.MapUpdate:
+							if ld, ok := x.Map.(*ssa.UnOp); ok {
+								if gl, ok := ld.X.(*ssa.Global); ok {
+									n++
+									r.bad(rule, g, "write into package map "+gl.Name(), x.Pos(), what+" writes into a package-level map")
+								}
+							}
+						case ssa.CallInstruction:
+							// methods of the sync containers (sync.Map, sync.Pool, atomic values) on a package-level variable
+							c := x.Common()
+							sc := c.StaticCallee()
+							if sc == nil || sc.Signature.Recv() == nil || len(c.Args) == 0 {
+								continue
+							}
+							p := fnPkgPath(sc)
+							if p != "sync" && p != "sync/atomic" {
+								continue
+							}
+							rt := sc.Signature.Recv().Type().String()
+							if strings.Contains(rt, "Mutex") || strings.Contains(rt, "Once") || strings.Contains(rt, "WaitGroup") {
+								continue
+							}
+							if gl, ok := c.Args[0].(*ssa.Global); ok {
+								switch sc.Name() {
+								case "Load", "Range", "Get":
+								default:
+									n++
+									r.bad(rule, g, "update of package-level "+gl.Name()+" ("+sc.Name()+")", x.Pos(), what+" keeps a cache or counter in a package-level variable: what it answers depends on earlier calls")
+								}
+							}
+						}
+					}
+				}
+			}
+		}
+	}
+	r.add(rule, nil, "functions scanned for writes to package-level state", token.NoPos, "info", fmt.Sprintf("%d functions, %d writes", nf, n))
+	if nf == 0 {
+		r.undecided(rule, nil, what, token.NoPos, "no function to scan")
+	}
+}
+
+
+// pairLoopRule: a loop that walks its arguments two at a time (key/value, index/value) must not stop one short
+// of the end silently: either the count was tested for parity before, or the loop runs while i < len so that a
+// dangling last argument makes the access of its partner fail (which the binder reports as an error).
+func pairLoopRule(w *World, r *Report, e *Engine, rule string) {
+	r.rule(rule, "a loop over arguments taken two at a time either follows a parity test of the count or is bounded by i < len (never i+1 < len): an odd count surfaces as an error instead of the last argument being dropped")
+	n := 0
+	for _, fn := range w.Funcs {
+		if isTestFunc(w, fn) || !runtimePkg(fnPkgPath(fn)) {
+			continue
+		}
+		for _, l := range naturalLoops(fn) {
+			blocks := loopBlocks(l)
+			for _, in := range l.header.Instrs {
+				phi, ok := in.(*ssa.Phi)
+				if !ok {
+					break
+				}
+				if !isIntType(phi.Type()) {
+					continue
+				}
+				self := e.keyOf(phi).String()
+				step := int64(0)
+				for i, op := range phi.Edges {
+					if !blocks[l.header.Preds[i]] {
+						continue
+					}
+					if t, off, ok := e.linOf(op); ok && t.Kind == 2 && t.K.String() == self {
+						step = off
+					}
+				}
+				if step != 2 {
+					continue
+				}
+				// exit test: (i + c) < len(X)
+				for b := range blocks {
+					iff := blockIf(b)
+					if iff == nil || (blocks[b.Succs[0]] && blocks[b.Succs[1]]) {
+						continue
+					}
+					bo, ok := iff.Cond.(*ssa.BinOp)
+					if !ok {
+						continue
+					}
+					lt, loff, ok1 := e.linOf(bo.X)
+					rt, roff, ok2 := e.linOf(bo.Y)
+					if !ok1 || !ok2 {
+						continue
+					}
+					var c int64
+					var lenT Term
+					switch {
+					case lt.Kind == 2 && lt.K.String() == self && rt.Kind == 1 && (bo.Op == token.LSS || bo.Op == token.LEQ):
+						c, lenT = loff-roff, rt
+						if bo.Op == token.LEQ {
+							c--
+						}
+					case rt.Kind == 2 && rt.K.String() == self && lt.Kind == 1 && (bo.Op == token.GTR || bo.Op == token.GEQ):
+						c, lenT = roff-loff, lt
+						if bo.Op == token.GEQ {
+							c--
+						}
+					default:
+						continue
+					}
+					n++
+					if c <= 0 {
+						r.ok(rule, fn, "pair loop bounded by i < len", iff.Pos(), "a dangling last argument makes the access of its partner fail")
+						continue
+					}
+					// parity known?
+					parity := false
+					for _, f := range e.holding(l.header).list() {
+						if f.Kind == "even" || f.Kind == "odd" || f.Kind == "parity" {
+							if strings.Contains(f.String(), lenT.String()) {
+								parity = true
+							}
+						}
+					}
+					// or a dominating test of len % 2
+					for _, a := range knownConds(l.header) {
+						if strings.Contains(describeVal(e, a.v, 0), "%") {
+							parity = true
+						}
+					}
+					r.check(parity, rule, fn, "pair loop that stops before a dangling last argument", iff.Pos(), "the count was tested for parity before", "the loop runs while i+"+fmt.Sprint(c)+" < len and nothing tested the count for parity: with an odd number of arguments the last one is silently ignored instead of being reported")
+				}
+			}
+		}
+	}
+	r.floor(rule, "loops that take arguments two at a time", n, 2)
+}
+
+// stringCharsRule: the elements of a string are its characters; a piece of fixed byte width cut at the offsets
+// a range loop yields is a byte, not a character.
+func stringCharsRule(w *World, r *Report, rule string) {
+	r.rule(rule, "inside a range loop over a string no piece of that string is cut with a fixed byte width at the loop's offset (s[i:i+k]): characters are obtained from the rune the loop yields or by splitting, so multi-byte characters stay whole")
+	n := 0
+	for _, fn := range w.Funcs {
+		if isTestFunc(w, fn) || !runtimePkg(fnPkgPath(fn)) {
+			continue
+		}
+		for _, b := range fn.Blocks {
+			for _, in := range b.Instrs {
+				nx, ok := in.(*ssa.Next)
+				if !ok || !nx.IsString {
+					continue
+				}
+				n++
+				rg, _ := nx.Iter.(*ssa.Range)
+				bad := token.NoPos
+				for _, ref := range *nx.Referrers() {
+					ex, ok := ref.(*ssa.Extract)
+					if !ok || ex.Index != 1 {
+						continue
+					}
+					for _, u := range *ex.Referrers() {
+						sl, ok := u.(*ssa.Slice)
+						if ok && rg != nil && sl.X == rg.X && sl.Low == ssa.Value(ex) {
+							if hb, ok := sl.High.(*ssa.BinOp); ok && hb.Op == token.ADD && hb.X == ssa.Value(ex) {
+								if _, isK := hb.Y.(*ssa.Const); isK {
+									bad = sl.Pos()
+								}
+							}
+						}
+					}
+				}
+				r.check(!bad.IsValid(), rule, fn, "pieces cut from a string inside a range over it", in.Pos(), "none of fixed byte width", "s[i:i+k] at the offsets of a range loop yields the first byte(s) of each character: strings with non-ASCII characters are split into broken pieces")
+			}
+		}
+	}
+	r.add(rule, nil, "range loops over strings in the runtime packages", token.NoPos, "info", fmt.Sprintf("%d loop(s)", n))
+}
+
+
+// freshOrNil: nil, a new allocation, or a merge of those.
+func freshOrNil(v ssa.Value, depth int) bool {
+	if depth > 4 {
+		return false
+	}
+	if isNilConst(v) {
+		return true
+	}
+	switch x := v.(type) {
+	case *ssa.Alloc:
+		return true
+	case *ssa.Phi:
+		for _, op := range x.Edges {
+			if !freshOrNil(op, depth+1) {
+				return false
+			}
+		}
+		return len(x.Edges) > 0
+	}
+	return false
 }
